@@ -187,10 +187,61 @@ def run(chk):
                         continue
                     i = cs.p3(slot, (x * 1000.0, y * 1000.0, TOP - d), d, [[4, 0, 0]])
                     plan.append(("area", i, poly, (x * 1000.0, y * 1000.0), d, dmin, dmax))
+    # (3b) local depth range: min / max depth given at points (each of the two alone and both); at a listed point the local
+    # depth is the listed value, at the corners the value given for them
+    for wi in range(9 if quick else 120):
+        size = 6
+        poly = [[0.0, 0.0], [6000.0, 0.0], [6000.0, 6000.0], [0.0, 6000.0]] if wi % 2 == 0 else [[1000.0 * x, 1000.0 * y] for x, y in lattice_polygon(rng, rng.randint(3, 6), size)]
+        inner = [(1000.0 * x + 500.0, 1000.0 * y + 500.0) for x in range(size) for y in range(size)
+                 if inside_spec(poly, (1000.0 * x + 500.0, 1000.0 * y + 500.0)) and boundary_distance(poly, (1000.0 * x + 500.0, 1000.0 * y + 500.0)) > 100.0]
+        if len(inner) < 2:
+            continue
+        pts = rng.sample(inner, min(len(inner), rng.randint(1, 3)))
+        which = ("max", "min", "both")[wi % 3]
+        corner_min, corner_max = rng.choice([0.0, 4000.0]), rng.choice([20000.0, 30000.0])
+        f = {"model": rng.choice(["continental plate", "oceanic plate", "mantle layer"]), "name": "a", "coordinates": poly}
+        node_min = {q: corner_min for q in pts}
+        node_max = {q: corner_max for q in pts}
+        if which in ("max", "both"):
+            ent = [[corner_max]]
+            for q in pts:
+                node_max[q] = float(rng.choice([12000.0, 26000.0, 41000.0]))
+                ent.append([node_max[q], [list(q)]])
+            f["max depth"] = ent
+        else:
+            f["max depth"] = corner_max
+        if which in ("min", "both"):
+            ent = [[corner_min]]
+            for q in pts:
+                node_min[q] = float(rng.choice([1000.0, 6000.0, 9000.0]))
+                ent.append([node_min[q], [list(q)]])
+            f["min depth"] = ent
+        elif corner_min > 0 or rng.random() < 0.5:
+            f["min depth"] = corner_min
+        wj = {"version": "1.1", "features": [f]}
+        slot = cs.add_world(wj)
+        for q in pts:
+            for d, exp in ((node_max[q] - 1.0, True), (node_max[q] + 1.0, False), (node_min[q] + 1.0, True), (node_min[q] - 1.0, False),
+                           ((node_min[q] + node_max[q]) / 2, True)):
+                if d < 0:
+                    continue
+                i = cs.p3(slot, (q[0], q[1], TOP - d), d, [[4, 0, 0]])
+                plan.append(("node", i, exp, q, d, which))
+        for c in poly:
+            for d, exp in ((corner_max - 1.0, True), (corner_max + 1.0, False), (corner_min + 1.0, True)) + (((corner_min - 1.0, False),) if corner_min > 0 else ()):
+                i = cs.p3(slot, (c[0], c[1], TOP - d), d, [[4, 0, 0]])
+                plan.append(("node", i, exp, tuple(c), d, which))
+        # anywhere else the model decides (bit for bit)
+        for q in rng.sample(inner, min(len(inner), 6)):
+            for _k in range(3):
+                d = float(round(rng.uniform(0.0, 45000.0)))
+                cs.p3(slot, (q[0] + rng.uniform(-400, 400), q[1] + rng.uniform(-400, 400), TOP - d), d, [[4, 0, 0]])
     # (4) plumes
     for _ in range(25 if quick else 400):
         sph = rng.random() < 0.4
-        f = g.plume("p", sph)
+        # a third of the spherical plumes straddle the +-180 meridian (longitudes written on either branch)
+        f = g.plume("p", sph, centre=((rng.choice([-1, 1]) * round(rng.uniform(177, 183), 2), round(rng.uniform(-50, 50), 2))
+                                      if sph and rng.random() < 0.35 else None))
         aimed = _ % 3 == 0 and len(f["cross section depths"]) >= 2
         if aimed:
             # aimed at the cyclic interpolation of the ellipse azimuth: elongated cross-sections whose azimuth jumps by
@@ -257,6 +308,13 @@ def run(chk):
                     viol.append(("polygon test differs from the closed-polygon definition away from the boundary", i))
             else:
                 chk.count("boundary-ambiguous (not exactly representable)")
+        elif kind == "node":
+            exp, q, d, which = pl[2:]
+            t = common.parse_vec(a)
+            chk.nontriv(("node", i))
+            if t is None or (t[0] >= 0) != exp:
+                viol.append(("area feature with a %s depth given at points does not occupy its local depth range at a listed point / corner "
+                             "(depth %g should be %s)" % (which, d, "inside" if exp else "outside"), i))
         elif kind == "area":
             poly, p, d, dmin, dmax = pl[2:]
             exp = inside_spec(poly, p) and dmin <= d <= dmax
